@@ -40,7 +40,7 @@ def gen_cases(tier):
                 if typ in gen.DEG2 and max((len(k) for k in D), default=0) > 2:
                     continue
                 for sch in (schemes if typ not in gen.MATRIX else ("int",)):
-                    for named in (False, True):
+                    for named in (False, True, "falsy"):
                         for stale in (False, True):
                             cons = (0, 1, 2) if typ in ("PCBO", "PCSO") else (0,)
                             for con in cons:
@@ -62,7 +62,9 @@ def make_model(case):
     L = gen.labels_for(case["scheme"], n)
     D = gen.relabel(POLYS[case["poly"]], case["scheme"], n)
     M = gen.build(typ, D)
-    if case["named"]:
+    if case["named"] == "falsy":
+        M.name = (0, "", 0.0, False)[case["poly"] % 4]      # a name that is falsy but not None (e.g. the variable labelled 0)
+    elif case["named"]:
         M.name = "model-%d" % case["poly"]
     if case["constraints"] >= 1:
         M.add_constraint_le_zero({(L[0],): 1, (L[1],): 1, (): -1}, lam=2)
